@@ -257,3 +257,87 @@ def strip(acts, name):
     while len(acts) > 1 and acts[-1] == 0 and acts[-2] == 0:
         acts = acts[:-1]
     return acts
+
+
+# ------------------------------------------------------------------------------------------
+def strategy_case(ctx, case):
+    """The real DecodingStrategy API (pre_decoder_hook / step / post_decoder_hook) driven with random logits on envs
+    whose reward is READ FROM THE FINAL STATE (FLP, MCP, mTSP min-max, JSSP, FJSP, SMTWTP): the state returned next to
+    the selected actions must be the state those actions produce. Oracle: replay of the returned actions on fresh copies."""
+    from rl4co.utils.decoding import get_decoding_strategy
+    from rl4co.utils.ops import batchify
+
+    cfg, B, k, seed = case["cfg"], case["B"], case["k"], case["s"]
+    name = cfg["env"]
+    env = envzoo.make(cfg)[0] if name == "mtsp" else envzoo.make_other(cfg)
+    torch.manual_seed(seed)
+    td_in = env.generator(batch_size=[B])
+    td0 = env.reset(td_in.clone())
+    multistart = case["decode"].startswith("multistart")
+    kw = dict(num_starts=k) if multistart else dict(num_samples=k)
+    s = get_decoding_strategy(case["decode"], select_best=case["select_best"], **kw)
+    tapped = {}
+    orig_sb = s._select_best
+
+    def select_best(logprobs, actions, td, env_):
+        tapped["actions"] = actions.clone()
+        return orig_sb(logprobs, actions, td, env_)
+
+    s._select_best = select_best
+    g = torch.Generator().manual_seed(seed)
+    sig = sig_of(cfg, decode=case["decode"], select_best=case["select_best"], via="strategy_api")
+    try:
+        td, env_, _ = s.pre_decoder_hook(td0.clone(), env)
+        steps = 0
+        while not td["done"].all() and steps < 500:
+            mask = td["action_mask"]
+            logits = torch.rand(mask.shape, generator=g)
+            td = s.step(logits, mask.clone(), td)
+            td = env_.step(td)["next"]
+            steps += 1
+        logprobs, actions, td, env_ = s.post_decoder_hook(td, env_)
+        reward = env_.get_reward(td, actions)
+    except Exception as e:
+        ctx.evaluation()
+        ctx.violation(dict(sig, q="raises", exc=type(e).__name__), f"decoding strategy raised {type(e).__name__}: {str(e)[:200]}", dict(B=B, k=k))
+        return
+    ctx.count("c12_strategy_calls")
+
+    def replay(acts, td_src):
+        td_r = env.reset(td_src.clone())
+        for t in range(acts.shape[1]):
+            td_r.set("action", acts[:, t].clone())
+            td_r = env.step(td_r)["next"]
+        return env.get_reward(td_r, acts.clone()).reshape(acts.shape[0], -1)[:, 0]
+
+    tol = lambda x: 1e-5 * max(1.0, abs(x))
+    if case["select_best"]:
+        if "actions" not in tapped:
+            ctx.count("c12_select_best_tap_missed")
+            return
+        ctx.count("c12_select_best_taps")
+        cand = replay(tapped["actions"], batchify(td_in, k)).reshape(k, B)
+        own = replay(actions, td_in)
+        for b in range(B):
+            ctx.evaluation()
+            ctx.count("c12_best_rows")
+            ctx.count("c12_state_reward_rows")
+            got, best = float(reward.reshape(B, -1)[b, 0]), float(cand[:, b].max())
+            if abs(got - float(own[b])) > tol(float(own[b])):
+                ctx.violation(dict(sig, q="best_reward_vs_actions"), f"instance {b}: returned reward {got} is not the reward {float(own[b])} obtained by replaying the returned actions on a fresh copy of that instance (state and actions of different rollouts)", dict(B=B, k=k, actions=actions[b].tolist()))
+                return
+            if abs(got - best) > tol(best):
+                ctx.violation(dict(sig, q="best_reward"), f"instance {b}: returned reward {got} != max over its own {k} rollouts {best} ({cand[:, b].tolist()})", dict(B=B, k=k))
+                return
+            ctx.nontrivial_case(dict(e=name, a=actions[b].tolist(), k=k))
+    else:
+        rep = replay(actions, batchify(td_in, k))
+        for r in range(actions.shape[0]):
+            ctx.evaluation()
+            ctx.count("c12_rollout_rows")
+            ctx.count("c12_state_reward_rows")
+            got = float(reward.reshape(actions.shape[0], -1)[r, 0])
+            if abs(got - float(rep[r])) > tol(float(rep[r])):
+                ctx.violation(dict(sig, q="row_instance"), f"row {r}: reward {got} != reward {float(rep[r])} of its actions replayed on instance {r % B}", dict(B=B, k=k))
+                return
+            ctx.nontrivial_case(dict(e=name, a=actions[r].tolist(), k=k, r=r % B))
